@@ -1711,3 +1711,26 @@ def _int_repr(ex, fn, args, kw, node):
     if isinstance(v, VOpaque):
         return int_to_str(ex, VInt(intval(v.t)))
     return int_to_str(ex, VInt(ex.flat(v, 'int')))
+
+
+@builtin('os.path.dirname')
+def _os_dirname(ex, fn, args, kw, node):
+    """os.path.dirname(p): a prefix of p (everything before the last '/', A-BUILTIN); TypeError for a non-string."""
+    s = ex.res(args[0])
+    if not isinstance(s, VStr):
+        ex.limit('os.path.dirname of a non-string', node)
+    r = z3.String(ex.fresh_name('dirname'))
+    ex.assume(z3.PrefixOf(r, s.t))
+    ex.assume(z3.Implies(z3.Not(z3.Contains(s.t, z3.StringVal('/'))), r == z3.StringVal('')))
+    return VStr(r)
+
+
+@builtin('os.path.join')
+def _os_join(ex, fn, args, kw, node):
+    """os.path.join(a, b, ...): some string that ends with the last component (A-BUILTIN)."""
+    parts = [ex.res(a) for a in args]
+    if not parts or not all(isinstance(a, VStr) for a in parts):
+        ex.limit('os.path.join of non-strings', node)
+    r = z3.String(ex.fresh_name('joined_path'))
+    ex.assume(z3.SuffixOf(parts[-1].t, r))
+    return VStr(r)
